@@ -59,7 +59,7 @@ def generate(check, rng, tier, run_index):
             o['key'] = _gen_key(rng)
         elif k == 'join':
             o['j'] = rng.below(1 << 10)
-            o['how'] = rng.choice(['plus', 'method', 'mdjoin', 'mdjoin3'])
+            o['how'] = rng.choice(['plus', 'method', 'mdjoin', 'mdjoin3', 'discard', 'discard_overlap'])
             o['j2'] = rng.below(1 << 10)
         elif k == 'stack':
             o['j'] = rng.below(1 << 10)
@@ -363,6 +363,8 @@ def execute(check, case, workdir):
     pool = []
 
     def add(m):
+        if m.n == 0:
+            return          # zero-frame results are compared when they arise but not kept (kernels are not written for them)
         pool.append(m)
         while len(pool) > POOL_MAX:
             pool.pop(0)
@@ -570,15 +572,33 @@ def execute(check, case, workdir):
                 if how == 'mdjoin3':
                     parts.append(pick(op['j2'], cands))
                 flags = 'how=%s,cell=%s' % (how, 'complete' if m.complete else ('half' if (m.L is not None or m.A is not None) else 'none'))
+                if how == 'discard_overlap':
+                    # a partner that really overlaps: it starts with this trajectory's last frame
+                    tail = t[-1:]
+                    tail_m = Member(tail, m.xyz[-1:], m.time[-1:], None if m.L is None else m.L[-1:], None if m.A is None else m.A[-1:], m.labels)
+                    tail_j = tail.join(u.t)
+                    ov = Member(tail_j, np.concatenate([tail_m.xyz, u.xyz]), np.concatenate([tail_m.time, u.time]),
+                                np.concatenate([tail_m.L, u.L]) if m.complete else None, np.concatenate([tail_m.A, u.A]) if m.complete else None, m.labels)
+                    parts = [m, ov]
+                    res.probe('join_discarding_a_real_overlap')
                 if how == 'plus':
                     r = t + u.t
                 elif how == 'method':
                     r = t.join(u.t)
+                elif how in ('discard', 'discard_overlap'):
+                    r = t.join([p.t for p in parts[1:]], discard_overlapping_frames=True)
                 else:
                     r = md.join([p.t for p in parts])
-                L = np.concatenate([p.L for p in parts]) if m.complete else None
-                A = np.concatenate([p.A for p in parts]) if m.complete else None
-                mm = Member(r, np.concatenate([p.xyz for p in parts]), np.concatenate([p.time for p in parts]), L, A, m.labels)
+                keep = [np.arange(p.n) for p in parts]
+                if how in ('discard', 'discard_overlap'):
+                    # documented rule: drop the last frame of a piece when it coincides (|dx| < 2e-3 everywhere) with the first of the next
+                    for k in range(len(parts) - 1):
+                        if len(keep[k]) and parts[k + 1].n and np.all(np.abs(parts[k + 1].xyz[0] - parts[k].xyz[keep[k][-1]]) < 2e-3):
+                            keep[k] = keep[k][:-1]
+                cat = lambda name: np.concatenate([getattr(p, name)[kk] for p, kk in zip(parts, keep)])
+                L = cat('L') if m.complete else None
+                A = cat('A') if m.complete else None
+                mm = Member(r, cat('xyz'), cat('time'), L, A, m.labels)
                 res.log.append('%d join(%s) %s -> %d frames' % (stepno, how, [p.id for p in parts], mm.n))
                 res.trace.append(('join', how, m.complete))
                 bad = compare_member(mm, cell=True)
